@@ -68,6 +68,7 @@ def main():
     out.append('\n## 6. Demonstrating detection\n\n')
     out.append('### 6.1 Changes seeded by independent sub-agents\n\nEach was written by a fresh sub-agent that was given only the text of one property and its own scratch worktree of `/repo`\n(nothing from `/verif`), and asked for a change that breaks the property, still compiles, keeps the 141 tests passing and\nneeds something specific to manifest, with a demonstration program. I confirmed each in a fresh worktree\n(`seeded/import.py`: suite 141/141 with the change, demo fails with it, passes without it) before keeping it as\n`seeded/<id>/{patch.diff, demo/, meta.json}`; `mutants/run.py --seeded` then ran the property\'s quick check against the\npatched tree (`detection.json`). None of these changes is committed to `/repo`.\n\n')
     out.append('| id | property | what it needs to manifest | quick check | reporting sites |\n|---|---|---|---|---|\n')
+    stats = {'total': 0, 'detected': 0, 'initially_missed': 0, 'anticipated': 0}
     for d in sorted(glob.glob(os.path.join(VERIF, 'seeded', '*', 'meta.json'))):
         m = json.load(open(d))
         det = {}
@@ -85,7 +86,11 @@ def main():
         if m.get('initially_missed'):
             verdict += ' (initially missed; ' + m['initially_missed'] + ')'
         out.append('| %s | %s | %s | %s | %s |\n' % (m['id'], m['property'], m['needs_to_manifest'].replace('|', '/'), verdict, ', '.join('`%s`' % s for s in c.get('sites', [])[:3])))
-    out.append('\n')
+        stats['total'] += 1
+        stats['detected'] += 1 if (c.get('detected') or any(det.get('checks', {}).get(o, {}).get('detected') for o in (m.get('also_run') or []))) else 0
+        stats['initially_missed'] += 1 if m.get('initially_missed') else 0
+        stats['anticipated'] += 1 if (m.get('note') or '').find('before this change was evaluated') >= 0 else 0
+    out.append('\nTotals: %d seeded changes kept over four rounds (round 1: one per property; round 2: two; rounds 3 and 4: three, with prompts steering towards degenerate shapes / symmetric reader-writer mistakes / state left for the next call, and towards type-width-layout changes / shared helpers / call-order interactions); duplicates of earlier changes were not kept. %d are reported by the quick check of the property they break on the current tree. %d of them were missed when first evaluated and led to the strengthening named in their row; for %d more the check was extended from the description of the change before it was evaluated (said in the row). Every cured miss was re-run; the rows show the final run.\n\n' % (stats['total'], stats['detected'], stats['initially_missed'], stats['anticipated']))
     rp = os.path.join(VERIF, 'mutants', 'results.json')
     if os.path.exists(rp):
         res = json.load(open(rp))
